@@ -444,9 +444,13 @@ def validator():
 def resolver():
     rel = D + "path_resolver.py"
     f = _method(rel, "PathResolver", "normalize_path_string")
-    b = [ast.unparse(s) for s in _body(f)]
-    if b != ["return str(path).replace('\\\\', '/')"]:
-        raise Unsupported("normalize_path_string")
+    b = _body(f)
+    if len(b) != 1 or not isinstance(b[0], ast.Return) or b[0].value is None:
+        raise Unsupported("normalize_path_string: a single return expected")
+    ops = _norm_chain(b[0].value)
+    seps = [o for o in ops if o[0] == "NReplace" and o[1] == "\\"]
+    if len(seps) > 1 or any(o[2] != "/" for o in seps):
+        raise Unsupported("normalize_path_string: backslash replaced more than once or not by '/'")
     g = _method(rel, "PathResolver", "get_relative_path")
     gb = [ast.unparse(s) for s in _body(g)]
     head = "try:\n    if file_path.is_absolute():\n        return file_path.relative_to(self.project_root)\n    return "
@@ -457,7 +461,42 @@ def resolver():
         resolved = True       # resolved against the working directory, re-expressed relative to the project root
     else:
         raise Unsupported("get_relative_path")
-    return defn("fp_path_sep", "string", coq_string("/")) + defn("fp_relative_resolved", "bool", "true" if resolved else "false")
+    # the call site: lint_path normalises the root-relative path and hands both to the checker
+    lp = [ast.unparse(x) for x in _body(_method(D + "linter.py", "FilePlacementLinter", "lint_path"))]
+    if lp != ["rel_path = self._components.path_resolver.get_relative_path(file_path)",
+              "path_str = self._components.path_resolver.normalize_path_string(rel_path)",
+              "fp_config = self.config",
+              "return self._components.rule_checker.check_all_rules(path_str, rel_path, fp_config)"]:
+        raise Unsupported("FilePlacementLinter.lint_path")
+    return (defn("fp_path_sep", "string", coq_string("/")) + defn("fp_relative_resolved", "bool", "true" if resolved else "false")
+            + defn("fp_normalize_ops", "list norm_op", "[" + "; ".join(_coq_norm_op(o) for o in ops) + "]"))
+
+
+_NORM_METHODS = {"replace": ("NReplace", 2), "lstrip": ("NLstrip", 1), "rstrip": ("NRstrip", 1), "strip": ("NStrip", 1),
+                 "lower": ("NLower", 0), "removeprefix": ("NRemovePrefix", 1)}
+
+
+def _norm_chain(e):
+    """`str(path)` followed by string methods with constant arguments, innermost first: [(op, args...)]"""
+    if isinstance(e, ast.Call) and isinstance(e.func, ast.Name) and e.func.id == "str":
+        if len(e.args) != 1 or e.keywords or ast.unparse(e.args[0]) != "path":
+            raise Unsupported("normalize_path_string: str(path)")
+        return []
+    if not (isinstance(e, ast.Call) and isinstance(e.func, ast.Attribute) and not e.keywords):
+        raise Unsupported("normalize_path_string: not a chain of string methods over str(path): " + ast.unparse(e)[:60])
+    if e.func.attr not in _NORM_METHODS:
+        raise Unsupported("normalize_path_string: string method " + e.func.attr)
+    op, arity = _NORM_METHODS[e.func.attr]
+    if len(e.args) != arity:
+        raise Unsupported(f"normalize_path_string: {e.func.attr} with {len(e.args)} arguments")
+    args = [_str(a, "normalize_path_string argument") for a in e.args]
+    if any('"' in a or any(not 32 <= ord(c) < 127 for c in a) for a in args) or (args and args[0] == ""):
+        raise Unsupported("normalize_path_string: argument is empty or not printable ASCII")
+    return _norm_chain(e.func.value) + [(op, *args)]
+
+
+def _coq_norm_op(o):
+    return o[0] if len(o) == 1 else "(" + o[0] + " " + " ".join(coq_string(a) for a in o[1:]) + ")"
 
 
 # ---------------------------------------------------------------- where the rule set comes from
